@@ -554,11 +554,32 @@ func cmdCheck(args []string) int {
 		"wall_s":      time.Since(start).Seconds(),
 		"violations":  int(nviol),
 	}
+	// self-check: the evidence must satisfy what its level requires
+	// (EVIDENCE.schema.json); better a loud machinery error here than a record
+	// that is silently treated as no evidence
+	var evProblems []string
+	if len(c.Samples) == 0 {
+		evProblems = append(evProblems, "coverage.samples is empty (the harness never called Sample)")
+	}
+	switch p.Level {
+	case "model_checking":
+		if c.States < 1 || c.Transitions < 1 {
+			evProblems = append(evProblems, fmt.Sprintf("model_checking needs states>=1 and transitions>=1 (got %d, %d)", c.States, c.Transitions))
+		}
+	default:
+		if c.Evaluations < 1 || c.Distinct < 2 || strings.TrimSpace(c.Rule) == "" {
+			evProblems = append(evProblems, fmt.Sprintf("%s needs evaluations>=1, distinct_nontrivial>=2 and a rule (got %d, %d, rule %d chars)", p.Level, c.Evaluations, c.Distinct, len(c.Rule)))
+		}
+	}
 	data, _ := json.MarshalIndent(ev, "", " ")
 	os.MkdirAll(filepath.Join(verifDir, "evidence"), 0o755)
 	if err := os.WriteFile(filepath.Join(verifDir, "evidence", p.ID+".json"), append(data, '\n'), 0o644); err != nil {
 		fmt.Fprintln(os.Stderr, "MACHINERY-ERROR:", err)
 		return 2
+	}
+	if len(evProblems) > 0 && exit == 0 {
+		fmt.Fprintf(os.Stderr, "MACHINERY-ERROR property=%s: evidence would not be valid for level %s: %s\n", p.ID, p.Level, strings.Join(evProblems, "; "))
+		exit = 2
 	}
 	fmt.Printf("property=%s tier=%s evaluations=%d distinct=%d states=%d transitions=%d traces=%d exhaustive=%v violations=%d new=%d wall=%.1fs\n",
 		p.ID, *tier, c.Evaluations, c.Distinct, c.States, c.Transitions, c.Traces, c.Exhaustive, nviol, len(lines), time.Since(start).Seconds())
